@@ -11,7 +11,9 @@ def check(ctx):
         "one set in N traces carry the same span ids: a look-up over the whole batch gives the first copy everything); R3 an "
         "open span's end is LocalSpansInner.end_time exactly on the end_instant == Instant::ZERO edge, and end_time is "
         "Instant::now() taken after the scope is unregistered; R4 no Arc::get_mut/make_mut on the shared forest and no "
-        "interior mutability in RawSpan / LocalSpansInner.")
+        "interior mutability in RawSpan / LocalSpansInner; R5 a set pushed to a parent whose trace has already been released is "
+        "kept for the stale path on every routing branch unless cancelable (the same set pushed to N parents is delivered N times, "
+        "also under the parents that finished earlier).")
     ctx.not_decided = "identity of the N delivered subtrees as values."
     facts = ctx.facts("E")
     provrules.rule_push_child(ctx, facts, "R1")
@@ -21,6 +23,7 @@ def check(ctx):
     if c.need("R2"):
         collector.rule_stale_isolated(ctx, c, "R2")
         collector.rule_danglings_arg(ctx, c, "R2")
+        collector.rule_stale_kept(ctx, c, "R5")
     provrules.rule_mount_scope(ctx, facts, "R2")
     provrules.rule_open_spans(ctx, facts, "R3")
     provrules.rule_forest_immutable(ctx, facts, "R4")
